@@ -269,12 +269,6 @@ class GuardDefinition:
             # 🌳 Composite guards accept their operands under `children`, or
             #    (as XState's helpers emit) inside `params`.
             children_cfg = config.get("children") or []
-            if not isinstance(children_cfg, (list, tuple)):
-                raise InvalidConfigError(
-                    f"❌ Guard '{self.type}' has an invalid 'children' value "
-                    f"of type '{type(children_cfg).__name__}'. Expected a "
-                    "list of guards."
-                )
             if not children_cfg and isinstance(self.params, dict):
                 children_cfg = (
                     self.params.get("guards")
@@ -306,6 +300,14 @@ class GuardDefinition:
             self.type in COMPOSITE_GUARD_TYPES and not isinstance(config, str)
         )
         self.is_state_in = self.type == STATE_IN_GUARD_TYPE
+        # 🧱 Operands come from raw config (`children`, `params.guards`,
+        #    `params.children`); anything but a list cannot be iterated into
+        #    guards and must be reported, not raised as a raw TypeError.
+        if not isinstance(children_cfg, (list, tuple)):
+            raise InvalidConfigError(
+                f"❌ Guard '{self.type}' has invalid nested guards of type "
+                f"'{type(children_cfg).__name__}'. Expected a list of guards."
+            )
         self.children = [GuardDefinition(c) for c in children_cfg]
 
         if self.is_composite and not self.children:
